@@ -79,6 +79,7 @@ type statsObs struct {
 	obs   *SideObs
 	tags  []*statTag
 	conns map[int][]string // conn tag -> events
+	connSide []bool        // what each connection event's IsClient() said
 	nconn int
 }
 
@@ -413,6 +414,7 @@ func (h *statsObs) HandleConn(ctx context.Context, s stats.ConnStats) {
 	}
 	histMu.Lock()
 	h.conns[id] = append(h.conns[id], name)
+	h.connSide = append(h.connSide, s.IsClient())
 	histMu.Unlock()
 }
 
@@ -673,6 +675,41 @@ func checkConnStats(run *MixRun) {
 		for id, evs := range h.conns {
 			if strings.Join(evs, ",") != "ConnBegin,ConnEnd" {
 				e.Violate("C20", "conn-events", "server", "stats handler s%d conn %d: events %v, want exactly ConnBegin,ConnEnd", h.idx, id, evs)
+			}
+		}
+	}
+	// client side: a ClientConn announces itself to each of its stats handlers when it is
+	// created and takes its leave when the application closes it - once each
+	for _, cc := range run.Net.CCs {
+		cc.Close()
+	}
+	for _, h := range obs.Stats {
+		if h.side == 's' {
+			for _, c := range h.connSide {
+				if c {
+					e.Violate("C20", "stats-wrong-side", "server.conn", "stats handler s%d: a connection event of the server says IsClient()=true", h.idx)
+					break
+				}
+			}
+			continue
+		}
+		nb, ne := 0, 0
+		for _, evs := range h.conns {
+			for _, ev := range evs {
+				if ev == "ConnBegin" {
+					nb++
+				} else {
+					ne++
+				}
+			}
+		}
+		if n := len(run.Net.CCs); nb != n || ne != n {
+			e.Violate("C20", "conn-events", "client", "stats handler c%d: %d ConnBegin and %d ConnEnd events for %d client connections created and closed", h.idx, nb, ne, n)
+		}
+		for _, c := range h.connSide {
+			if !c {
+				e.Violate("C20", "stats-wrong-side", "client.conn", "stats handler c%d: a connection event of the client says IsClient()=false", h.idx)
+				break
 			}
 		}
 	}
